@@ -254,16 +254,20 @@ class Endpoint:
         self.calls.append(scope.get("path_params"))
 
 
-def run_router(iface, templates, path, root=""):
+def run_router(iface, templates, path, root="", outer=None):
     """root: the mount point the server / an outer Subpaths already removed from the path (SCRIPT_NAME / root_path); routing is on `path` alone"""
     eps = [Endpoint(i) for i in range(len(templates))]
     if iface == "wsgi":
         app = WR.Router(*[(t, e.wsgi) for t, e in zip(templates, eps)])
+        if outer:  # the router is itself the endpoint of a catch-all route of an outer router (the documented way to nest routers)
+            app = WR.Router((outer, app))
         calls = []
         list(app({"REQUEST_METHOD": "GET", "PATH_INFO": path, "SCRIPT_NAME": root}, lambda s, h, e=None: calls.append(s)))
         status = calls[0] if calls else None
     else:
         app = AR.Router(*[(t, e.asgi) for t, e in zip(templates, eps)])
+        if outer:
+            app = AR.Router((outer, app))
         sent = []
 
         async def send(m):
@@ -300,7 +304,7 @@ def job_route(job) -> report.JobResult:
 
     def fn():
         try:
-            status, eps = run_router(iface, templates, path, job.get("root", ""))
+            status, eps = run_router(iface, templates, path, job.get("root", ""), job.get("outer"))
             err = None
         except ValueError as ex:  # conversion error: still decide what the spec says about this path
             status, eps, err = None, [], ex
@@ -353,7 +357,7 @@ def job_route(job) -> report.JobResult:
         if not (klass in ("param-text-wrong", "param-value-wrong") or "(z3 regex oracle)" in (detail or "")):
             e.last_sat = False  # class decided by forks, not by a final query: any model of the path condition is the witness
         m = e.witness()
-        wit = {"iface": iface, "routes": templates, "path": conc(path, m), "root": job.get("root", "")}
+        wit = {"iface": iface, "routes": templates, "path": conc(path, m), "root": job.get("root", ""), "outer": job.get("outer")}
         with shims.off():
             cp = concrete_route(wit)
         if klass is not None:
@@ -444,7 +448,7 @@ def concrete_route(w) -> Optional[str]:
     try:
         templates, path = w["routes"], w["path"]
         try:
-            status, eps = run_router(w["iface"], templates, path, w.get("root", ""))
+            status, eps = run_router(w["iface"], templates, path, w.get("root", ""), w.get("outer"))
         except Exception as ex:  # noqa: BLE001
             return f"exception {type(ex).__name__}: {ex}"
         exp = next((i for i, t in enumerate(templates) if py_route_match(t, path)), None)
@@ -467,6 +471,8 @@ def concrete_route(w) -> Optional[str]:
                 idx = mm.end()
             rx += _re.escape(templates[exp][idx:])
             gd = _re.fullmatch(rx, path).groupdict()
+            if set(params) != set(gd):
+                return f"path parameters {sorted(params)} for a route whose placeholders are {sorted(gd)}"
             for k, txt in gd.items():
                 t = kinds[k]
                 want = {"str": lambda s: s, "any": lambda s: s, "int": int, "decimal": _Decimal, "uuid": _uuid.UUID,
@@ -814,6 +820,11 @@ def jobs(tier: str):
         for tname, root in (("int-str-lit", "/u"), ("any-lit", "/f"), ("two-params", "/a"), ("placeholder-before-literal", "/a")):
             for n in range(0, 4):
                 out.append(dict(name=f"route/{iface}/{tname}/mounted-at:{root}/+{n}", kind="route", iface=iface, table=tname, n=n, prefix_text=root + "/", root=root, weight=3 ** n))
+        # nested routers: the inner router is the endpoint of an outer catch-all route; the endpoint sees the INNER route's parameters only
+        for tname, outer in (("int-str-lit", "/u/{outer_rest:any}"), ("any-lit", "/f/{outer_rest:any}"), ("lit-str-int", "/{outer_first}/{outer_rest:any}")):
+            for n in range(0, 4):
+                out.append(dict(name=f"route/{iface}/{tname}/nested-under:{outer}/+{n}", kind="route", iface=iface, table=tname, n=n,
+                                prefix_text=TABLES[tname][0][:3], outer=outer, weight=3 ** n))
         out.append(dict(name=f"route/{iface}/decimal-then-str/s+5", kind="route", iface=iface, table="decimal-then-str", n=5, prefix_text="/s/", weight=600))
         out.append(dict(name=f"route/{iface}/decimal-int/q+5", kind="route", iface=iface, table="decimal-int", n=5, prefix_text="/q/", weight=600))
         out.append(dict(name=f"route/{iface}/decimal-date/d+10", kind="route", iface=iface, table="decimal-date", n=10, prefix_text="/d/", weight=5000))
